@@ -264,3 +264,14 @@ Theorem Tie_sess_term_dispatch : forall (fl reason : N) (s : ep),
     end.
 Proof. exact tie_term_dispatch. Qed.
 Print Assumptions Tie_sess_term_dispatch.
+
+(** send_bundle_data -> ContactHandler._add_queue_item: the refusal guard. *)
+Theorem Tie_send_bundle : forall (s : ep) (data : bytes), closed s = false ->
+  step s (OSend data) =
+  if gen_add_queue_refused (in_sess s) (in_term s) then emit (EExc EX_RUNTIME) s
+  else
+    emit (ERet 1 (PStrNum (next_id s)))
+         (pq_trigger (s <| next_id := next_id s + 1 |> <| pend_start := pend_start s ++ [(next_id s, data)] |>
+                        <| tx_map := dict_set (next_id s) 0 (tx_map s) |>)).
+Proof. exact tie_send_bundle. Qed.
+Print Assumptions Tie_send_bundle.
